@@ -384,7 +384,7 @@ def two_crashes_body(tf, has_fai, has_agp, t0, t1, t2, cp, fl, del_fai, del_agp,
 def two_crashes_then_load_0000a(tf: int, t0: int, t1: int, t2: int, cp: int, fl: int, cp2: int, fl2: int) -> bool:
     """
     pre: tf >= 100 and t0 >= 0 and t1 >= 0 and t2 >= 0
-    pre: 0 <= cp <= 10 and 0 <= fl <= 12 and 0 <= cp2 <= 40 and 0 <= fl2 <= 12
+    pre: 0 <= cp <= 9 and 0 <= fl <= 12 and 0 <= cp2 <= 40 and 0 <= fl2 <= 12
     post: _
     """
     return two_crashes_body(tf, False, False, t0, t1, t2, cp, fl, False, False, cp2, fl2)
@@ -393,7 +393,16 @@ def two_crashes_then_load_0000a(tf: int, t0: int, t1: int, t2: int, cp: int, fl:
 def two_crashes_then_load_0000b(tf: int, t0: int, t1: int, t2: int, cp: int, fl: int, cp2: int, fl2: int) -> bool:
     """
     pre: tf >= 100 and t0 >= 0 and t1 >= 0 and t2 >= 0
-    pre: 11 <= cp <= 40 and 0 <= fl <= 12 and 0 <= cp2 <= 40 and 0 <= fl2 <= 12
+    pre: 10 <= cp <= 19 and 0 <= fl <= 12 and 0 <= cp2 <= 40 and 0 <= fl2 <= 12
+    post: _
+    """
+    return two_crashes_body(tf, False, False, t0, t1, t2, cp, fl, False, False, cp2, fl2)
+
+
+def two_crashes_then_load_0000c(tf: int, t0: int, t1: int, t2: int, cp: int, fl: int, cp2: int, fl2: int) -> bool:
+    """
+    pre: tf >= 100 and t0 >= 0 and t1 >= 0 and t2 >= 0
+    pre: 20 <= cp <= 40 and 0 <= fl <= 12 and 0 <= cp2 <= 40 and 0 <= fl2 <= 12
     post: _
     """
     return two_crashes_body(tf, False, False, t0, t1, t2, cp, fl, False, False, cp2, fl2)
@@ -402,7 +411,7 @@ def two_crashes_then_load_0000b(tf: int, t0: int, t1: int, t2: int, cp: int, fl:
 def two_crashes_then_load_0001a(tf: int, t0: int, t1: int, t2: int, cp: int, fl: int, cp2: int, fl2: int) -> bool:
     """
     pre: tf >= 100 and t0 >= 0 and t1 >= 0 and t2 >= 0
-    pre: 0 <= cp <= 10 and 0 <= fl <= 12 and 0 <= cp2 <= 40 and 0 <= fl2 <= 12
+    pre: 0 <= cp <= 9 and 0 <= fl <= 12 and 0 <= cp2 <= 40 and 0 <= fl2 <= 12
     post: _
     """
     return two_crashes_body(tf, False, False, t0, t1, t2, cp, fl, False, True, cp2, fl2)
@@ -411,7 +420,16 @@ def two_crashes_then_load_0001a(tf: int, t0: int, t1: int, t2: int, cp: int, fl:
 def two_crashes_then_load_0001b(tf: int, t0: int, t1: int, t2: int, cp: int, fl: int, cp2: int, fl2: int) -> bool:
     """
     pre: tf >= 100 and t0 >= 0 and t1 >= 0 and t2 >= 0
-    pre: 11 <= cp <= 40 and 0 <= fl <= 12 and 0 <= cp2 <= 40 and 0 <= fl2 <= 12
+    pre: 10 <= cp <= 19 and 0 <= fl <= 12 and 0 <= cp2 <= 40 and 0 <= fl2 <= 12
+    post: _
+    """
+    return two_crashes_body(tf, False, False, t0, t1, t2, cp, fl, False, True, cp2, fl2)
+
+
+def two_crashes_then_load_0001c(tf: int, t0: int, t1: int, t2: int, cp: int, fl: int, cp2: int, fl2: int) -> bool:
+    """
+    pre: tf >= 100 and t0 >= 0 and t1 >= 0 and t2 >= 0
+    pre: 20 <= cp <= 40 and 0 <= fl <= 12 and 0 <= cp2 <= 40 and 0 <= fl2 <= 12
     post: _
     """
     return two_crashes_body(tf, False, False, t0, t1, t2, cp, fl, False, True, cp2, fl2)
@@ -420,7 +438,7 @@ def two_crashes_then_load_0001b(tf: int, t0: int, t1: int, t2: int, cp: int, fl:
 def two_crashes_then_load_0010a(tf: int, t0: int, t1: int, t2: int, cp: int, fl: int, cp2: int, fl2: int) -> bool:
     """
     pre: tf >= 100 and t0 >= 0 and t1 >= 0 and t2 >= 0
-    pre: 0 <= cp <= 10 and 0 <= fl <= 12 and 0 <= cp2 <= 40 and 0 <= fl2 <= 12
+    pre: 0 <= cp <= 9 and 0 <= fl <= 12 and 0 <= cp2 <= 40 and 0 <= fl2 <= 12
     post: _
     """
     return two_crashes_body(tf, False, False, t0, t1, t2, cp, fl, True, False, cp2, fl2)
@@ -429,7 +447,16 @@ def two_crashes_then_load_0010a(tf: int, t0: int, t1: int, t2: int, cp: int, fl:
 def two_crashes_then_load_0010b(tf: int, t0: int, t1: int, t2: int, cp: int, fl: int, cp2: int, fl2: int) -> bool:
     """
     pre: tf >= 100 and t0 >= 0 and t1 >= 0 and t2 >= 0
-    pre: 11 <= cp <= 40 and 0 <= fl <= 12 and 0 <= cp2 <= 40 and 0 <= fl2 <= 12
+    pre: 10 <= cp <= 19 and 0 <= fl <= 12 and 0 <= cp2 <= 40 and 0 <= fl2 <= 12
+    post: _
+    """
+    return two_crashes_body(tf, False, False, t0, t1, t2, cp, fl, True, False, cp2, fl2)
+
+
+def two_crashes_then_load_0010c(tf: int, t0: int, t1: int, t2: int, cp: int, fl: int, cp2: int, fl2: int) -> bool:
+    """
+    pre: tf >= 100 and t0 >= 0 and t1 >= 0 and t2 >= 0
+    pre: 20 <= cp <= 40 and 0 <= fl <= 12 and 0 <= cp2 <= 40 and 0 <= fl2 <= 12
     post: _
     """
     return two_crashes_body(tf, False, False, t0, t1, t2, cp, fl, True, False, cp2, fl2)
@@ -438,7 +465,7 @@ def two_crashes_then_load_0010b(tf: int, t0: int, t1: int, t2: int, cp: int, fl:
 def two_crashes_then_load_0011a(tf: int, t0: int, t1: int, t2: int, cp: int, fl: int, cp2: int, fl2: int) -> bool:
     """
     pre: tf >= 100 and t0 >= 0 and t1 >= 0 and t2 >= 0
-    pre: 0 <= cp <= 10 and 0 <= fl <= 12 and 0 <= cp2 <= 40 and 0 <= fl2 <= 12
+    pre: 0 <= cp <= 9 and 0 <= fl <= 12 and 0 <= cp2 <= 40 and 0 <= fl2 <= 12
     post: _
     """
     return two_crashes_body(tf, False, False, t0, t1, t2, cp, fl, True, True, cp2, fl2)
@@ -447,7 +474,16 @@ def two_crashes_then_load_0011a(tf: int, t0: int, t1: int, t2: int, cp: int, fl:
 def two_crashes_then_load_0011b(tf: int, t0: int, t1: int, t2: int, cp: int, fl: int, cp2: int, fl2: int) -> bool:
     """
     pre: tf >= 100 and t0 >= 0 and t1 >= 0 and t2 >= 0
-    pre: 11 <= cp <= 40 and 0 <= fl <= 12 and 0 <= cp2 <= 40 and 0 <= fl2 <= 12
+    pre: 10 <= cp <= 19 and 0 <= fl <= 12 and 0 <= cp2 <= 40 and 0 <= fl2 <= 12
+    post: _
+    """
+    return two_crashes_body(tf, False, False, t0, t1, t2, cp, fl, True, True, cp2, fl2)
+
+
+def two_crashes_then_load_0011c(tf: int, t0: int, t1: int, t2: int, cp: int, fl: int, cp2: int, fl2: int) -> bool:
+    """
+    pre: tf >= 100 and t0 >= 0 and t1 >= 0 and t2 >= 0
+    pre: 20 <= cp <= 40 and 0 <= fl <= 12 and 0 <= cp2 <= 40 and 0 <= fl2 <= 12
     post: _
     """
     return two_crashes_body(tf, False, False, t0, t1, t2, cp, fl, True, True, cp2, fl2)
@@ -456,7 +492,7 @@ def two_crashes_then_load_0011b(tf: int, t0: int, t1: int, t2: int, cp: int, fl:
 def two_crashes_then_load_0100a(tf: int, t0: int, t1: int, t2: int, cp: int, fl: int, cp2: int, fl2: int) -> bool:
     """
     pre: tf >= 100 and t0 >= 0 and t1 >= 0 and t2 >= 0
-    pre: 0 <= cp <= 10 and 0 <= fl <= 12 and 0 <= cp2 <= 40 and 0 <= fl2 <= 12
+    pre: 0 <= cp <= 9 and 0 <= fl <= 12 and 0 <= cp2 <= 40 and 0 <= fl2 <= 12
     post: _
     """
     return two_crashes_body(tf, False, True, t0, t1, t2, cp, fl, False, False, cp2, fl2)
@@ -465,7 +501,16 @@ def two_crashes_then_load_0100a(tf: int, t0: int, t1: int, t2: int, cp: int, fl:
 def two_crashes_then_load_0100b(tf: int, t0: int, t1: int, t2: int, cp: int, fl: int, cp2: int, fl2: int) -> bool:
     """
     pre: tf >= 100 and t0 >= 0 and t1 >= 0 and t2 >= 0
-    pre: 11 <= cp <= 40 and 0 <= fl <= 12 and 0 <= cp2 <= 40 and 0 <= fl2 <= 12
+    pre: 10 <= cp <= 19 and 0 <= fl <= 12 and 0 <= cp2 <= 40 and 0 <= fl2 <= 12
+    post: _
+    """
+    return two_crashes_body(tf, False, True, t0, t1, t2, cp, fl, False, False, cp2, fl2)
+
+
+def two_crashes_then_load_0100c(tf: int, t0: int, t1: int, t2: int, cp: int, fl: int, cp2: int, fl2: int) -> bool:
+    """
+    pre: tf >= 100 and t0 >= 0 and t1 >= 0 and t2 >= 0
+    pre: 20 <= cp <= 40 and 0 <= fl <= 12 and 0 <= cp2 <= 40 and 0 <= fl2 <= 12
     post: _
     """
     return two_crashes_body(tf, False, True, t0, t1, t2, cp, fl, False, False, cp2, fl2)
@@ -474,7 +519,7 @@ def two_crashes_then_load_0100b(tf: int, t0: int, t1: int, t2: int, cp: int, fl:
 def two_crashes_then_load_0101a(tf: int, t0: int, t1: int, t2: int, cp: int, fl: int, cp2: int, fl2: int) -> bool:
     """
     pre: tf >= 100 and t0 >= 0 and t1 >= 0 and t2 >= 0
-    pre: 0 <= cp <= 10 and 0 <= fl <= 12 and 0 <= cp2 <= 40 and 0 <= fl2 <= 12
+    pre: 0 <= cp <= 9 and 0 <= fl <= 12 and 0 <= cp2 <= 40 and 0 <= fl2 <= 12
     post: _
     """
     return two_crashes_body(tf, False, True, t0, t1, t2, cp, fl, False, True, cp2, fl2)
@@ -483,7 +528,16 @@ def two_crashes_then_load_0101a(tf: int, t0: int, t1: int, t2: int, cp: int, fl:
 def two_crashes_then_load_0101b(tf: int, t0: int, t1: int, t2: int, cp: int, fl: int, cp2: int, fl2: int) -> bool:
     """
     pre: tf >= 100 and t0 >= 0 and t1 >= 0 and t2 >= 0
-    pre: 11 <= cp <= 40 and 0 <= fl <= 12 and 0 <= cp2 <= 40 and 0 <= fl2 <= 12
+    pre: 10 <= cp <= 19 and 0 <= fl <= 12 and 0 <= cp2 <= 40 and 0 <= fl2 <= 12
+    post: _
+    """
+    return two_crashes_body(tf, False, True, t0, t1, t2, cp, fl, False, True, cp2, fl2)
+
+
+def two_crashes_then_load_0101c(tf: int, t0: int, t1: int, t2: int, cp: int, fl: int, cp2: int, fl2: int) -> bool:
+    """
+    pre: tf >= 100 and t0 >= 0 and t1 >= 0 and t2 >= 0
+    pre: 20 <= cp <= 40 and 0 <= fl <= 12 and 0 <= cp2 <= 40 and 0 <= fl2 <= 12
     post: _
     """
     return two_crashes_body(tf, False, True, t0, t1, t2, cp, fl, False, True, cp2, fl2)
@@ -492,7 +546,7 @@ def two_crashes_then_load_0101b(tf: int, t0: int, t1: int, t2: int, cp: int, fl:
 def two_crashes_then_load_0110a(tf: int, t0: int, t1: int, t2: int, cp: int, fl: int, cp2: int, fl2: int) -> bool:
     """
     pre: tf >= 100 and t0 >= 0 and t1 >= 0 and t2 >= 0
-    pre: 0 <= cp <= 10 and 0 <= fl <= 12 and 0 <= cp2 <= 40 and 0 <= fl2 <= 12
+    pre: 0 <= cp <= 9 and 0 <= fl <= 12 and 0 <= cp2 <= 40 and 0 <= fl2 <= 12
     post: _
     """
     return two_crashes_body(tf, False, True, t0, t1, t2, cp, fl, True, False, cp2, fl2)
@@ -501,7 +555,16 @@ def two_crashes_then_load_0110a(tf: int, t0: int, t1: int, t2: int, cp: int, fl:
 def two_crashes_then_load_0110b(tf: int, t0: int, t1: int, t2: int, cp: int, fl: int, cp2: int, fl2: int) -> bool:
     """
     pre: tf >= 100 and t0 >= 0 and t1 >= 0 and t2 >= 0
-    pre: 11 <= cp <= 40 and 0 <= fl <= 12 and 0 <= cp2 <= 40 and 0 <= fl2 <= 12
+    pre: 10 <= cp <= 19 and 0 <= fl <= 12 and 0 <= cp2 <= 40 and 0 <= fl2 <= 12
+    post: _
+    """
+    return two_crashes_body(tf, False, True, t0, t1, t2, cp, fl, True, False, cp2, fl2)
+
+
+def two_crashes_then_load_0110c(tf: int, t0: int, t1: int, t2: int, cp: int, fl: int, cp2: int, fl2: int) -> bool:
+    """
+    pre: tf >= 100 and t0 >= 0 and t1 >= 0 and t2 >= 0
+    pre: 20 <= cp <= 40 and 0 <= fl <= 12 and 0 <= cp2 <= 40 and 0 <= fl2 <= 12
     post: _
     """
     return two_crashes_body(tf, False, True, t0, t1, t2, cp, fl, True, False, cp2, fl2)
@@ -510,7 +573,7 @@ def two_crashes_then_load_0110b(tf: int, t0: int, t1: int, t2: int, cp: int, fl:
 def two_crashes_then_load_0111a(tf: int, t0: int, t1: int, t2: int, cp: int, fl: int, cp2: int, fl2: int) -> bool:
     """
     pre: tf >= 100 and t0 >= 0 and t1 >= 0 and t2 >= 0
-    pre: 0 <= cp <= 10 and 0 <= fl <= 12 and 0 <= cp2 <= 40 and 0 <= fl2 <= 12
+    pre: 0 <= cp <= 9 and 0 <= fl <= 12 and 0 <= cp2 <= 40 and 0 <= fl2 <= 12
     post: _
     """
     return two_crashes_body(tf, False, True, t0, t1, t2, cp, fl, True, True, cp2, fl2)
@@ -519,7 +582,16 @@ def two_crashes_then_load_0111a(tf: int, t0: int, t1: int, t2: int, cp: int, fl:
 def two_crashes_then_load_0111b(tf: int, t0: int, t1: int, t2: int, cp: int, fl: int, cp2: int, fl2: int) -> bool:
     """
     pre: tf >= 100 and t0 >= 0 and t1 >= 0 and t2 >= 0
-    pre: 11 <= cp <= 40 and 0 <= fl <= 12 and 0 <= cp2 <= 40 and 0 <= fl2 <= 12
+    pre: 10 <= cp <= 19 and 0 <= fl <= 12 and 0 <= cp2 <= 40 and 0 <= fl2 <= 12
+    post: _
+    """
+    return two_crashes_body(tf, False, True, t0, t1, t2, cp, fl, True, True, cp2, fl2)
+
+
+def two_crashes_then_load_0111c(tf: int, t0: int, t1: int, t2: int, cp: int, fl: int, cp2: int, fl2: int) -> bool:
+    """
+    pre: tf >= 100 and t0 >= 0 and t1 >= 0 and t2 >= 0
+    pre: 20 <= cp <= 40 and 0 <= fl <= 12 and 0 <= cp2 <= 40 and 0 <= fl2 <= 12
     post: _
     """
     return two_crashes_body(tf, False, True, t0, t1, t2, cp, fl, True, True, cp2, fl2)
@@ -528,7 +600,7 @@ def two_crashes_then_load_0111b(tf: int, t0: int, t1: int, t2: int, cp: int, fl:
 def two_crashes_then_load_1000a(tf: int, t0: int, t1: int, t2: int, cp: int, fl: int, cp2: int, fl2: int) -> bool:
     """
     pre: tf >= 100 and t0 >= 0 and t1 >= 0 and t2 >= 0
-    pre: 0 <= cp <= 10 and 0 <= fl <= 12 and 0 <= cp2 <= 40 and 0 <= fl2 <= 12
+    pre: 0 <= cp <= 9 and 0 <= fl <= 12 and 0 <= cp2 <= 40 and 0 <= fl2 <= 12
     post: _
     """
     return two_crashes_body(tf, True, False, t0, t1, t2, cp, fl, False, False, cp2, fl2)
@@ -537,7 +609,16 @@ def two_crashes_then_load_1000a(tf: int, t0: int, t1: int, t2: int, cp: int, fl:
 def two_crashes_then_load_1000b(tf: int, t0: int, t1: int, t2: int, cp: int, fl: int, cp2: int, fl2: int) -> bool:
     """
     pre: tf >= 100 and t0 >= 0 and t1 >= 0 and t2 >= 0
-    pre: 11 <= cp <= 40 and 0 <= fl <= 12 and 0 <= cp2 <= 40 and 0 <= fl2 <= 12
+    pre: 10 <= cp <= 19 and 0 <= fl <= 12 and 0 <= cp2 <= 40 and 0 <= fl2 <= 12
+    post: _
+    """
+    return two_crashes_body(tf, True, False, t0, t1, t2, cp, fl, False, False, cp2, fl2)
+
+
+def two_crashes_then_load_1000c(tf: int, t0: int, t1: int, t2: int, cp: int, fl: int, cp2: int, fl2: int) -> bool:
+    """
+    pre: tf >= 100 and t0 >= 0 and t1 >= 0 and t2 >= 0
+    pre: 20 <= cp <= 40 and 0 <= fl <= 12 and 0 <= cp2 <= 40 and 0 <= fl2 <= 12
     post: _
     """
     return two_crashes_body(tf, True, False, t0, t1, t2, cp, fl, False, False, cp2, fl2)
@@ -546,7 +627,7 @@ def two_crashes_then_load_1000b(tf: int, t0: int, t1: int, t2: int, cp: int, fl:
 def two_crashes_then_load_1001a(tf: int, t0: int, t1: int, t2: int, cp: int, fl: int, cp2: int, fl2: int) -> bool:
     """
     pre: tf >= 100 and t0 >= 0 and t1 >= 0 and t2 >= 0
-    pre: 0 <= cp <= 10 and 0 <= fl <= 12 and 0 <= cp2 <= 40 and 0 <= fl2 <= 12
+    pre: 0 <= cp <= 9 and 0 <= fl <= 12 and 0 <= cp2 <= 40 and 0 <= fl2 <= 12
     post: _
     """
     return two_crashes_body(tf, True, False, t0, t1, t2, cp, fl, False, True, cp2, fl2)
@@ -555,7 +636,16 @@ def two_crashes_then_load_1001a(tf: int, t0: int, t1: int, t2: int, cp: int, fl:
 def two_crashes_then_load_1001b(tf: int, t0: int, t1: int, t2: int, cp: int, fl: int, cp2: int, fl2: int) -> bool:
     """
     pre: tf >= 100 and t0 >= 0 and t1 >= 0 and t2 >= 0
-    pre: 11 <= cp <= 40 and 0 <= fl <= 12 and 0 <= cp2 <= 40 and 0 <= fl2 <= 12
+    pre: 10 <= cp <= 19 and 0 <= fl <= 12 and 0 <= cp2 <= 40 and 0 <= fl2 <= 12
+    post: _
+    """
+    return two_crashes_body(tf, True, False, t0, t1, t2, cp, fl, False, True, cp2, fl2)
+
+
+def two_crashes_then_load_1001c(tf: int, t0: int, t1: int, t2: int, cp: int, fl: int, cp2: int, fl2: int) -> bool:
+    """
+    pre: tf >= 100 and t0 >= 0 and t1 >= 0 and t2 >= 0
+    pre: 20 <= cp <= 40 and 0 <= fl <= 12 and 0 <= cp2 <= 40 and 0 <= fl2 <= 12
     post: _
     """
     return two_crashes_body(tf, True, False, t0, t1, t2, cp, fl, False, True, cp2, fl2)
@@ -564,7 +654,7 @@ def two_crashes_then_load_1001b(tf: int, t0: int, t1: int, t2: int, cp: int, fl:
 def two_crashes_then_load_1010a(tf: int, t0: int, t1: int, t2: int, cp: int, fl: int, cp2: int, fl2: int) -> bool:
     """
     pre: tf >= 100 and t0 >= 0 and t1 >= 0 and t2 >= 0
-    pre: 0 <= cp <= 10 and 0 <= fl <= 12 and 0 <= cp2 <= 40 and 0 <= fl2 <= 12
+    pre: 0 <= cp <= 9 and 0 <= fl <= 12 and 0 <= cp2 <= 40 and 0 <= fl2 <= 12
     post: _
     """
     return two_crashes_body(tf, True, False, t0, t1, t2, cp, fl, True, False, cp2, fl2)
@@ -573,7 +663,16 @@ def two_crashes_then_load_1010a(tf: int, t0: int, t1: int, t2: int, cp: int, fl:
 def two_crashes_then_load_1010b(tf: int, t0: int, t1: int, t2: int, cp: int, fl: int, cp2: int, fl2: int) -> bool:
     """
     pre: tf >= 100 and t0 >= 0 and t1 >= 0 and t2 >= 0
-    pre: 11 <= cp <= 40 and 0 <= fl <= 12 and 0 <= cp2 <= 40 and 0 <= fl2 <= 12
+    pre: 10 <= cp <= 19 and 0 <= fl <= 12 and 0 <= cp2 <= 40 and 0 <= fl2 <= 12
+    post: _
+    """
+    return two_crashes_body(tf, True, False, t0, t1, t2, cp, fl, True, False, cp2, fl2)
+
+
+def two_crashes_then_load_1010c(tf: int, t0: int, t1: int, t2: int, cp: int, fl: int, cp2: int, fl2: int) -> bool:
+    """
+    pre: tf >= 100 and t0 >= 0 and t1 >= 0 and t2 >= 0
+    pre: 20 <= cp <= 40 and 0 <= fl <= 12 and 0 <= cp2 <= 40 and 0 <= fl2 <= 12
     post: _
     """
     return two_crashes_body(tf, True, False, t0, t1, t2, cp, fl, True, False, cp2, fl2)
@@ -582,7 +681,7 @@ def two_crashes_then_load_1010b(tf: int, t0: int, t1: int, t2: int, cp: int, fl:
 def two_crashes_then_load_1011a(tf: int, t0: int, t1: int, t2: int, cp: int, fl: int, cp2: int, fl2: int) -> bool:
     """
     pre: tf >= 100 and t0 >= 0 and t1 >= 0 and t2 >= 0
-    pre: 0 <= cp <= 10 and 0 <= fl <= 12 and 0 <= cp2 <= 40 and 0 <= fl2 <= 12
+    pre: 0 <= cp <= 9 and 0 <= fl <= 12 and 0 <= cp2 <= 40 and 0 <= fl2 <= 12
     post: _
     """
     return two_crashes_body(tf, True, False, t0, t1, t2, cp, fl, True, True, cp2, fl2)
@@ -591,7 +690,16 @@ def two_crashes_then_load_1011a(tf: int, t0: int, t1: int, t2: int, cp: int, fl:
 def two_crashes_then_load_1011b(tf: int, t0: int, t1: int, t2: int, cp: int, fl: int, cp2: int, fl2: int) -> bool:
     """
     pre: tf >= 100 and t0 >= 0 and t1 >= 0 and t2 >= 0
-    pre: 11 <= cp <= 40 and 0 <= fl <= 12 and 0 <= cp2 <= 40 and 0 <= fl2 <= 12
+    pre: 10 <= cp <= 19 and 0 <= fl <= 12 and 0 <= cp2 <= 40 and 0 <= fl2 <= 12
+    post: _
+    """
+    return two_crashes_body(tf, True, False, t0, t1, t2, cp, fl, True, True, cp2, fl2)
+
+
+def two_crashes_then_load_1011c(tf: int, t0: int, t1: int, t2: int, cp: int, fl: int, cp2: int, fl2: int) -> bool:
+    """
+    pre: tf >= 100 and t0 >= 0 and t1 >= 0 and t2 >= 0
+    pre: 20 <= cp <= 40 and 0 <= fl <= 12 and 0 <= cp2 <= 40 and 0 <= fl2 <= 12
     post: _
     """
     return two_crashes_body(tf, True, False, t0, t1, t2, cp, fl, True, True, cp2, fl2)
@@ -600,7 +708,7 @@ def two_crashes_then_load_1011b(tf: int, t0: int, t1: int, t2: int, cp: int, fl:
 def two_crashes_then_load_1100a(tf: int, t0: int, t1: int, t2: int, cp: int, fl: int, cp2: int, fl2: int) -> bool:
     """
     pre: tf >= 100 and t0 >= 0 and t1 >= 0 and t2 >= 0
-    pre: 0 <= cp <= 10 and 0 <= fl <= 12 and 0 <= cp2 <= 40 and 0 <= fl2 <= 12
+    pre: 0 <= cp <= 9 and 0 <= fl <= 12 and 0 <= cp2 <= 40 and 0 <= fl2 <= 12
     post: _
     """
     return two_crashes_body(tf, True, True, t0, t1, t2, cp, fl, False, False, cp2, fl2)
@@ -609,7 +717,16 @@ def two_crashes_then_load_1100a(tf: int, t0: int, t1: int, t2: int, cp: int, fl:
 def two_crashes_then_load_1100b(tf: int, t0: int, t1: int, t2: int, cp: int, fl: int, cp2: int, fl2: int) -> bool:
     """
     pre: tf >= 100 and t0 >= 0 and t1 >= 0 and t2 >= 0
-    pre: 11 <= cp <= 40 and 0 <= fl <= 12 and 0 <= cp2 <= 40 and 0 <= fl2 <= 12
+    pre: 10 <= cp <= 19 and 0 <= fl <= 12 and 0 <= cp2 <= 40 and 0 <= fl2 <= 12
+    post: _
+    """
+    return two_crashes_body(tf, True, True, t0, t1, t2, cp, fl, False, False, cp2, fl2)
+
+
+def two_crashes_then_load_1100c(tf: int, t0: int, t1: int, t2: int, cp: int, fl: int, cp2: int, fl2: int) -> bool:
+    """
+    pre: tf >= 100 and t0 >= 0 and t1 >= 0 and t2 >= 0
+    pre: 20 <= cp <= 40 and 0 <= fl <= 12 and 0 <= cp2 <= 40 and 0 <= fl2 <= 12
     post: _
     """
     return two_crashes_body(tf, True, True, t0, t1, t2, cp, fl, False, False, cp2, fl2)
@@ -618,7 +735,7 @@ def two_crashes_then_load_1100b(tf: int, t0: int, t1: int, t2: int, cp: int, fl:
 def two_crashes_then_load_1101a(tf: int, t0: int, t1: int, t2: int, cp: int, fl: int, cp2: int, fl2: int) -> bool:
     """
     pre: tf >= 100 and t0 >= 0 and t1 >= 0 and t2 >= 0
-    pre: 0 <= cp <= 10 and 0 <= fl <= 12 and 0 <= cp2 <= 40 and 0 <= fl2 <= 12
+    pre: 0 <= cp <= 9 and 0 <= fl <= 12 and 0 <= cp2 <= 40 and 0 <= fl2 <= 12
     post: _
     """
     return two_crashes_body(tf, True, True, t0, t1, t2, cp, fl, False, True, cp2, fl2)
@@ -627,7 +744,16 @@ def two_crashes_then_load_1101a(tf: int, t0: int, t1: int, t2: int, cp: int, fl:
 def two_crashes_then_load_1101b(tf: int, t0: int, t1: int, t2: int, cp: int, fl: int, cp2: int, fl2: int) -> bool:
     """
     pre: tf >= 100 and t0 >= 0 and t1 >= 0 and t2 >= 0
-    pre: 11 <= cp <= 40 and 0 <= fl <= 12 and 0 <= cp2 <= 40 and 0 <= fl2 <= 12
+    pre: 10 <= cp <= 19 and 0 <= fl <= 12 and 0 <= cp2 <= 40 and 0 <= fl2 <= 12
+    post: _
+    """
+    return two_crashes_body(tf, True, True, t0, t1, t2, cp, fl, False, True, cp2, fl2)
+
+
+def two_crashes_then_load_1101c(tf: int, t0: int, t1: int, t2: int, cp: int, fl: int, cp2: int, fl2: int) -> bool:
+    """
+    pre: tf >= 100 and t0 >= 0 and t1 >= 0 and t2 >= 0
+    pre: 20 <= cp <= 40 and 0 <= fl <= 12 and 0 <= cp2 <= 40 and 0 <= fl2 <= 12
     post: _
     """
     return two_crashes_body(tf, True, True, t0, t1, t2, cp, fl, False, True, cp2, fl2)
@@ -636,7 +762,7 @@ def two_crashes_then_load_1101b(tf: int, t0: int, t1: int, t2: int, cp: int, fl:
 def two_crashes_then_load_1110a(tf: int, t0: int, t1: int, t2: int, cp: int, fl: int, cp2: int, fl2: int) -> bool:
     """
     pre: tf >= 100 and t0 >= 0 and t1 >= 0 and t2 >= 0
-    pre: 0 <= cp <= 10 and 0 <= fl <= 12 and 0 <= cp2 <= 40 and 0 <= fl2 <= 12
+    pre: 0 <= cp <= 9 and 0 <= fl <= 12 and 0 <= cp2 <= 40 and 0 <= fl2 <= 12
     post: _
     """
     return two_crashes_body(tf, True, True, t0, t1, t2, cp, fl, True, False, cp2, fl2)
@@ -645,7 +771,16 @@ def two_crashes_then_load_1110a(tf: int, t0: int, t1: int, t2: int, cp: int, fl:
 def two_crashes_then_load_1110b(tf: int, t0: int, t1: int, t2: int, cp: int, fl: int, cp2: int, fl2: int) -> bool:
     """
     pre: tf >= 100 and t0 >= 0 and t1 >= 0 and t2 >= 0
-    pre: 11 <= cp <= 40 and 0 <= fl <= 12 and 0 <= cp2 <= 40 and 0 <= fl2 <= 12
+    pre: 10 <= cp <= 19 and 0 <= fl <= 12 and 0 <= cp2 <= 40 and 0 <= fl2 <= 12
+    post: _
+    """
+    return two_crashes_body(tf, True, True, t0, t1, t2, cp, fl, True, False, cp2, fl2)
+
+
+def two_crashes_then_load_1110c(tf: int, t0: int, t1: int, t2: int, cp: int, fl: int, cp2: int, fl2: int) -> bool:
+    """
+    pre: tf >= 100 and t0 >= 0 and t1 >= 0 and t2 >= 0
+    pre: 20 <= cp <= 40 and 0 <= fl <= 12 and 0 <= cp2 <= 40 and 0 <= fl2 <= 12
     post: _
     """
     return two_crashes_body(tf, True, True, t0, t1, t2, cp, fl, True, False, cp2, fl2)
@@ -654,7 +789,7 @@ def two_crashes_then_load_1110b(tf: int, t0: int, t1: int, t2: int, cp: int, fl:
 def two_crashes_then_load_1111a(tf: int, t0: int, t1: int, t2: int, cp: int, fl: int, cp2: int, fl2: int) -> bool:
     """
     pre: tf >= 100 and t0 >= 0 and t1 >= 0 and t2 >= 0
-    pre: 0 <= cp <= 10 and 0 <= fl <= 12 and 0 <= cp2 <= 40 and 0 <= fl2 <= 12
+    pre: 0 <= cp <= 9 and 0 <= fl <= 12 and 0 <= cp2 <= 40 and 0 <= fl2 <= 12
     post: _
     """
     return two_crashes_body(tf, True, True, t0, t1, t2, cp, fl, True, True, cp2, fl2)
@@ -663,7 +798,16 @@ def two_crashes_then_load_1111a(tf: int, t0: int, t1: int, t2: int, cp: int, fl:
 def two_crashes_then_load_1111b(tf: int, t0: int, t1: int, t2: int, cp: int, fl: int, cp2: int, fl2: int) -> bool:
     """
     pre: tf >= 100 and t0 >= 0 and t1 >= 0 and t2 >= 0
-    pre: 11 <= cp <= 40 and 0 <= fl <= 12 and 0 <= cp2 <= 40 and 0 <= fl2 <= 12
+    pre: 10 <= cp <= 19 and 0 <= fl <= 12 and 0 <= cp2 <= 40 and 0 <= fl2 <= 12
+    post: _
+    """
+    return two_crashes_body(tf, True, True, t0, t1, t2, cp, fl, True, True, cp2, fl2)
+
+
+def two_crashes_then_load_1111c(tf: int, t0: int, t1: int, t2: int, cp: int, fl: int, cp2: int, fl2: int) -> bool:
+    """
+    pre: tf >= 100 and t0 >= 0 and t1 >= 0 and t2 >= 0
+    pre: 20 <= cp <= 40 and 0 <= fl <= 12 and 0 <= cp2 <= 40 and 0 <= fl2 <= 12
     post: _
     """
     return two_crashes_body(tf, True, True, t0, t1, t2, cp, fl, True, True, cp2, fl2)
@@ -1040,9 +1184,9 @@ def conditions(tier):
         Cond(f"two_interrupted_runs_then_fresh_load_{hf}{ha}{df}{da}{h}", HEAD, f"two_crashes_then_load_{hf}{ha}{df}{da}{h}", 3000,
              "as the first condition with TWO consecutive interrupted runs before the fresh auto-load; "
              f".fai {'present' if hf else 'absent'} and .agp {'present' if ha else 'absent'} at the start, .fai {'deleted' if df else 'kept'} and .agp {'deleted' if da else 'kept'} after the first run, "
-             f"first run interrupted {'before one of its first 11 file operations' if h == 'a' else 'at a later file operation or not at all'} "
-             "(32 conditions enumerate these; crash points, flush boundaries and clock ticks symbolic)", tier="thorough", env=ENV, encodes=ENC)
-        for hf in (0, 1) for ha in (0, 1) for df in (0, 1) for da in (0, 1) for h in "ab"
+             f"first run interrupted {dict(a='before one of its first 10 file operations', b='before file operation 11..20', c='at a later file operation or not at all')[h]} "
+             "(48 conditions enumerate these; crash points, flush boundaries and clock ticks symbolic)", tier="thorough", env=ENV, encodes=ENC)
+        for hf in (0, 1) for ha in (0, 1) for df in (0, 1) for da in (0, 1) for h in "abc"
     ]
     return out
 
